@@ -158,9 +158,14 @@ func c06Run(t *testing.T, ops []string, o *Out) {
 					o.P("bad-op")
 					continue
 				}
-				sr := &rtcp.SenderReport{SSRC: uint32(atoi(m["ssrc"])), NTPTime: ntpv, RTPTime: uint32(atoi(m["rtp"]))}
+				// `pre`: sender reports of other SSRCs that come first in the same compound packet
+				var pkts []rtcp.Packet
+				for k, ps := range parseInts(m["pre"]) {
+					pkts = append(pkts, &rtcp.SenderReport{SSRC: uint32(ps), NTPTime: ntpv + uint64(k) + 1, RTPTime: 7})
+				}
+				pkts = append(pkts, &rtcp.SenderReport{SSRC: uint32(atoi(m["ssrc"])), NTPTime: ntpv, RTPTime: uint32(atoi(m["rtp"]))})
 				var err error
-				if curRTCP, err = sr.Marshal(); err != nil {
+				if curRTCP, err = rtcp.Marshal(pkts); err != nil {
 					panic(err)
 				}
 				if _, _, err = rtcpIn.Read(buf, interceptor.Attributes{}); err != nil {
@@ -348,7 +353,16 @@ func c06Gen(r *Rng, tier string, idx int) Case {
 				if r.Chance(1, 4) {
 					ntpv = uint64(r.Pick(0, 65535, 65536, 1<<32)) + uint64(r.Intn(2))<<48
 				}
-				ops = append(ops, fmt.Sprintf("sr ssrc=%d ntp=%d rtp=%d dt=%d", ssrc, ntpv, r.Intn(1<<32), r.Pick(0, 1000, 7000000, 1500000000)))
+				op := fmt.Sprintf("sr ssrc=%d ntp=%d rtp=%d dt=%d", ssrc, ntpv, r.Intn(1<<32), r.Pick(0, 1000, 7000000, 1500000000))
+				if r.Chance(1, 3) && ntpv < 1<<63 {
+					// a compound packet: reports of foreign (and sometimes other bound) streams first
+					pre := []int{r.Pick(999998, 0, 77)}
+					if r.Bool() && len(streams) > 0 {
+						pre = append(pre, streams[r.Intn(len(streams))].ssrc)
+					}
+					op += " pre=" + joinInts(pre)
+				}
+				ops = append(ops, op)
 			}
 		}
 		tp := 8
